@@ -217,6 +217,19 @@ fn frame_ok(before: &Value, after: &Value, toks: &[String]) -> bool {
     }
 }
 
+/// the node the (already unescaped) tokens address: object key, or array index as `usize::from_str` reads it
+fn o_at<'a>(v: &'a Value, toks: &[String]) -> Option<&'a Value> {
+    let mut cur = v;
+    for t in toks {
+        cur = match cur {
+            Value::Object(m) => m.get(t)?,
+            Value::Array(a) => a.get(o_index(t)?)?,
+            _ => return None,
+        };
+    }
+    Some(cur)
+}
+
 fn o_normalize_prefix(p: &str) -> String {
     let mut n = if p.is_empty() || p == "/" {
         String::new()
@@ -574,7 +587,94 @@ fn apply_checked(out: &mut Out, sys: &mut Sys, op: &OpR, trail: &[String], check
                 }
             }
         }
-        _ => {}
+        OpR::SetRoot(v) => {
+            if &after_root != v || after_log != before.log {
+                fail(out, "registry.set_root", format!("set_root({}) left {}", render(v), render(&after_root)));
+            }
+        }
+        OpR::RegV(p, v) => {
+            if after_log != before.log {
+                fail(out, "registry.register.called", format!("{} invoked a callable", op.words()));
+            }
+            match (&r, o_reg_parse(p)) {
+                (Ok(_), Some(toks)) => {
+                    out.count("oracle.register_value_readback");
+                    if o_at(&after_root, &toks) != Some(v) {
+                        fail(out, "registry.register_value.readback", format!("{} then the tree has {:?} there", op.words(), o_at(&after_root, &toks).map(render)));
+                    }
+                }
+                (Ok(_), None) => fail(out, "registry.malformed.not_rejected", format!("{} accepted a malformed path", op.words())),
+                (Err(_), _) => {
+                    if after_root != before.root {
+                        fail(out, "registry.register.failed_mutated", format!("failed {} changed the tree", op.words()));
+                    }
+                }
+            }
+        }
+        OpR::RegF(p, _, _) => {
+            if after_log != before.log {
+                fail(out, "registry.register.called", format!("{} invoked a callable", op.words()));
+            }
+            match (&r, o_reg_parse(p)) {
+                (Ok(_), Some(toks)) if !toks.is_empty() => {
+                    // every proper ancestor is an object afterwards; values off the path are untouched
+                    let mut ok = after_root.is_object();
+                    for i in 1..toks.len() {
+                        ok &= o_at(&after_root, &toks[..i]).map_or(false, |x| x.is_object());
+                    }
+                    if !ok {
+                        fail(out, "registry.register_function.parents", format!("{} left {}", op.words(), render(&after_root)));
+                    }
+                }
+                (Ok(_), _) => fail(out, "registry.malformed.not_rejected", format!("{} accepted a root or malformed path", op.words())),
+                (Err(_), _) => {
+                    if after_root != before.root {
+                        fail(out, "registry.register.failed_mutated", format!("failed {} changed the tree", op.words()));
+                    }
+                }
+            }
+        }
+        OpR::MergeRoot(o) | OpR::MergeAt(_, o) => {
+            let toks = match op {
+                OpR::MergeAt(p, _) => o_reg_parse(p),
+                _ => Some(vec![]),
+            };
+            if after_log != before.log {
+                fail(out, "registry.merge.called", format!("{} invoked a callable", op.words()));
+            }
+            match (&r, toks) {
+                (Ok(_), Some(toks)) => {
+                    out.count("oracle.merge");
+                    let empty = Map::new();
+                    let src = o.as_object().unwrap_or(&empty);
+                    // the target existed as an object (the root is coerced to {}), gets the fields, keeps the rest;
+                    // nothing off the path changes
+                    let old = if toks.is_empty() {
+                        Some(before.root.as_object().cloned().unwrap_or_default())
+                    } else {
+                        o_at(&before.root, &toks).and_then(|x| x.as_object().cloned())
+                    };
+                    let ok = match (old, o_at(&after_root, &toks).and_then(|x| x.as_object())) {
+                        (Some(old), Some(new)) => {
+                            src.iter().all(|(k, v)| new.get(k) == Some(v))
+                                && old.iter().all(|(k, v)| src.contains_key(k) || new.get(k) == Some(v))
+                                && new.keys().all(|k| src.contains_key(k) || old.contains_key(k))
+                                && (toks.is_empty() || frame_ok(&before.root, &after_root, &toks))
+                        }
+                        _ => false,
+                    };
+                    if !ok {
+                        fail(out, "registry.merge", format!("{} on {} gave {}", op.words(), render(&before.root), render(&after_root)));
+                    }
+                }
+                (Ok(_), None) => fail(out, "registry.malformed.not_rejected", format!("{} accepted a malformed path", op.words())),
+                (Err(_), _) => {
+                    if after_root != before.root {
+                        fail(out, "registry.merge.failed_mutated", format!("failed {} changed the tree", op.words()));
+                    }
+                }
+            }
+        }
     }
     r
 }
@@ -1115,7 +1215,7 @@ fn exec_conc(out: &mut Out, line: &str) {
 // ------------------------------------------------------------------------------------------
 // generators
 // ------------------------------------------------------------------------------------------
-const TOKENS: &[&str] = &["a", "b", "c", "a", "b", "", "0", "1", "01", "+1", "-", "2", "00", "+0", "x/y", "m~n", "~", "/", "é", "k k", "18446744073709551615", "18446744073709551616", "-1", "+", "1e0"];
+const TOKENS: &[&str] = &["a", "b", "c", "a", "b", "", "0", "1", "01", "+1", "-", "2", "00", "+0", "x/y", "m~n", "~", "/", "é", "k k", "18446744073709551615", "18446744073709551616", "-1", "+", "1e0", "++1"];
 
 fn gen_value(r: &mut Rng, depth: u32) -> Value {
     let k = if depth == 0 { r.below(5) } else { r.below(9) };
@@ -1374,7 +1474,7 @@ fn main() {
     let ops: Vec<String> = if let Some(ops) = args.replay_ops() {
         ops
     } else if family == "seq" {
-        out.rule = "random op sequences (5..100 ops after reset+router) of register_value / register_function (echoing or failing callables) / merge_at / merge_root / set_root / read_value / dispatch read / dispatch with body / requests through a Router::with_registry mount (6 prefix sets; json, beve, utf8, raw, broken bodies), pointers drawn from a per-sequence pool grown by child/parent steps over tokens {a,b,c,'',0,1,01,+1,-,2,00,+0,x/y,m~n,~,/,é,'k k',2^64-1,2^64,-1,+,1e0} plus root forms and malformed pointers (no slash, ~2, trailing ~); parse_json_pointer / eval_json_pointer on well-formed and lenient inputs; exhaustive enumeration of all op sequences over 3 pointers x 3 values (27 ops) in domains d1 (nesting), d2 (escapes + root), d3 (array indices). Distinct by op line; non-trivial = the operation succeeded (Ok result)".into();
+        out.rule = "random op sequences (5..100 ops after reset+router) of register_value / register_function (echoing or failing callables) / merge_at / merge_root / set_root / read_value / dispatch read / dispatch with body / requests through a Router::with_registry mount (6 prefix sets; json, beve, utf8, raw, broken bodies), pointers drawn from a per-sequence pool grown by child/parent steps over tokens {a,b,c,'',0,1,01,+1,++1,-,2,00,+0,x/y,m~n,~,/,é,'k k',2^64-1,2^64,-1,+,1e0} plus root forms and malformed pointers (no slash, ~2, trailing ~); parse_json_pointer / eval_json_pointer on well-formed and lenient inputs; exhaustive enumeration of all op sequences over 3 pointers x 3 values (27 ops) in domains d1 (nesting), d2 (escapes + root), d3 (array indices). Distinct by op line; non-trivial = the operation succeeded (Ok result)".into();
         let mut ops = Vec::new();
         let mut k = 0u64;
         let nseq = if thorough { 4000 } else { 400 };
